@@ -422,7 +422,7 @@ def run(rep, tier, seed, replay=None):
         # bezier_real_minmax is listed only to record why the translator tie is unavailable for it
         expected_untranslated = {'gen_bezier_real_minmax_4'}
         changed = bool(info['agree_failed']) or bool(set(info['untranslated']) - expected_untranslated)
-        n = 420 if tier == 'quick' else 5000
+        n = 420 if tier == 'quick' else 15000
         if changed: n *= 3
         todo = []
         if replay:
